@@ -28,11 +28,11 @@ fn accepted_menu(cfg: &Cfg) -> Vec<Reply> {
         Mech::ShortTerm(Some(false)) => vec![ok.with_mac(RMac::Mi), err.with_mac(RMac::Mi)],
         Mech::ShortTerm(None) => vec![ok.with_mac(RMac::Mi), ok.with_mac(RMac::Sha)],
         Mech::LongTerm => vec![
-            Reply::plain(RClass::Error(401)).with_chal(Chal { realm: true, nonce: NonceKind::Plain(1), pas: PasKind::Absent, realm_v: 0 }).with_fp(fp),
-            Reply::plain(RClass::Error(401)).with_chal(Chal { realm: true, nonce: NonceKind::Cookie(true, false, 2), pas: PasKind::Md5Sha256, realm_v: 0 }).with_fp(fp),
+            Reply::plain(RClass::Error(401)).with_chal(Chal { realm: true, nonce: NonceKind::Plain(1), pas: PasKind::Absent, realm_v: 0, order: 0 }).with_fp(fp),
+            Reply::plain(RClass::Error(401)).with_chal(Chal { realm: true, nonce: NonceKind::Cookie(true, false, 2), pas: PasKind::Md5Sha256, realm_v: 0, order: 0 }).with_fp(fp),
             ok.with_mac(RMac::Mi),
             ok.with_mac(RMac::Sha),
-            Reply::plain(RClass::Error(438)).with_chal(Chal { realm: false, nonce: NonceKind::Plain(3), pas: PasKind::Absent, realm_v: 0 }).with_fp(fp),
+            Reply::plain(RClass::Error(438)).with_chal(Chal { realm: false, nonce: NonceKind::Plain(3), pas: PasKind::Absent, realm_v: 0, order: 0 }).with_fp(fp),
         ],
     }
 }
@@ -82,8 +82,8 @@ fn rejected_menu(cfg: &Cfg, w: &World) -> Vec<(&'static str, Event)> {
                 }
             }
             Mech::LongTerm => {
-                v.push(("401-without-realm", Event::Deliver { to: t.clone(), reply: Reply::plain(RClass::Error(401)).with_chal(Chal { realm: false, nonce: NonceKind::Plain(7), pas: PasKind::Absent, realm_v: 0 }).with_fp(fp) }));
-                v.push(("401-without-nonce", Event::Deliver { to: t.clone(), reply: Reply::plain(RClass::Error(401)).with_chal(Chal { realm: true, nonce: NonceKind::Absent, pas: PasKind::Absent, realm_v: 0 }).with_fp(fp) }));
+                v.push(("401-without-realm", Event::Deliver { to: t.clone(), reply: Reply::plain(RClass::Error(401)).with_chal(Chal { realm: false, nonce: NonceKind::Plain(7), pas: PasKind::Absent, realm_v: 0, order: 0 }).with_fp(fp) }));
+                v.push(("401-without-nonce", Event::Deliver { to: t.clone(), reply: Reply::plain(RClass::Error(401)).with_chal(Chal { realm: true, nonce: NonceKind::Absent, pas: PasKind::Absent, realm_v: 0, order: 0 }).with_fp(fp) }));
                 v.push(("438-without-nonce", Event::Deliver { to: t.clone(), reply: Reply::plain(RClass::Error(438)).with_fp(fp) }));
                 // an error response that carries no ERROR-CODE at all: unauthenticated, authenticated, wrongly authenticated
                 for mac in [RMac::None, RMac::Mi, RMac::Sha, RMac::BadMi, RMac::ShaOtherPass] {
@@ -104,8 +104,8 @@ fn rejected_menu(cfg: &Cfg, w: &World) -> Vec<(&'static str, Event)> {
                         (RMac::ShaOtherPass, PasKind::Md5Sha256, NonceKind::Cookie(true, true, 23)),
                         (RMac::BadSha, PasKind::Sha256, NonceKind::Cookie(true, false, 24)),
                     ] {
-                        v.push(("401-failing-auth-unreliable", Event::Deliver { to: t.clone(), reply: Reply::plain(RClass::Error(401)).with_chal(Chal { realm: true, nonce, pas, realm_v: 0 }).with_mac(mac).with_fp(fp) }));
-                        v.push(("438-failing-auth-unreliable", Event::Deliver { to: t.clone(), reply: Reply::plain(RClass::Error(438)).with_chal(Chal { realm: false, nonce, pas, realm_v: 0 }).with_mac(mac).with_fp(fp) }));
+                        v.push(("401-failing-auth-unreliable", Event::Deliver { to: t.clone(), reply: Reply::plain(RClass::Error(401)).with_chal(Chal { realm: true, nonce, pas, realm_v: 0, order: 0 }).with_mac(mac).with_fp(fp) }));
+                        v.push(("438-failing-auth-unreliable", Event::Deliver { to: t.clone(), reply: Reply::plain(RClass::Error(438)).with_chal(Chal { realm: false, nonce, pas, realm_v: 0, order: 0 }).with_mac(mac).with_fp(fp) }));
                     }
                 }
             }
@@ -142,18 +142,49 @@ fn name_of_event(w: &World, ev: &Event) -> &'static str {
 #[derive(Clone)]
 pub struct Mon {
     pub max_sends: usize,
+    /// finals each request had before the current step
+    finals_before: Vec<usize>,
+}
+
+impl Mon {
+    pub fn new(max_sends: usize) -> Mon {
+        Mon { max_sends, finals_before: vec![] }
+    }
+}
+
+/// Is the event, judged by the facts BEFORE the step, a buffer of a kind the statement lists as rejected?
+fn must_reject_kind(cfg: &Cfg, ev: &Event, finals_before: &[usize]) -> Option<&'static str> {
+    match ev {
+        Event::RawBytes(_) => Some("undecodable-bytes"),
+        Event::Deliver { reply, .. } if reply.class == RClass::Request => Some("request-class"),
+        Event::Deliver { reply, .. } if cfg.fingerprint && reply.fp != RFp::Valid => Some("bad-or-missing-fingerprint"),
+        Event::Deliver { to: Target::Unknown, reply } if matches!(reply.class, RClass::Success | RClass::Error(_) | RClass::ErrorNoCode) => Some("reply-for-unknown-id"),
+        Event::Deliver { to: Target::Req(i), reply } if matches!(reply.class, RClass::Success | RClass::Error(_) | RClass::ErrorNoCode) && finals_before.get(*i).copied().unwrap_or(0) > 0 => {
+            Some("reply-for-finished-id")
+        }
+        _ => None,
+    }
 }
 
 impl Monitor for Mon {
     fn fresh(&self) -> Box<dyn Monitor> {
-        Box::new(self.clone())
+        Box::new(Mon::new(self.max_sends))
     }
     fn on_step(&mut self, w: &World, st: &Step, rep: Option<(&mut Report, &[Event])>) {
+        let finals_before = std::mem::replace(&mut self.finals_before, w.reqs.iter().map(|r| r.finals.len()).collect());
         let Some((rep, hist)) = rep else { return };
         let replay = || explore::history_replay(w, hist, st.obs);
         if let CallRes::Panic(p) = &st.obs.res {
             rep.violate(format!("client-panics/{}", crate::util::panic_site(p)), p.clone(), replay());
             return;
+        }
+        // kinds the statement itself lists as rejected: undecodable bytes, a request, a response for an unknown or a
+        // finished transaction, a bad or missing fingerprint - accepting one of them is a violation in itself
+        if let CallRes::RecvOk = &st.obs.res {
+            if let Some(kind) = must_reject_kind(&w.cfg, st.ev, &finals_before) {
+                rep.violate(format!("buffer-listed-as-rejected-is-accepted/{}", kind), format!("{:?}", super::world::show_events(&st.obs.events)), replay());
+                return;
+            }
         }
         // direct oracle: every buffer the client refuses leaves no trace
         if let CallRes::RecvErr(_) = &st.obs.res {
@@ -267,14 +298,14 @@ pub fn run(ctx: &RunCtx) -> i32 {
         (unrel, Mech::LongTerm, false),
         (rel, Mech::LongTerm, true),
     ] {
-        cfgs.push(Cfg { transport: t, mech: m, fingerprint: fp, max_tx: 3 });
+        cfgs.push(Cfg { transport: t, mech: m, fingerprint: fp, max_tx: 3, cred: 0, method: 1 });
     }
     let depth = if thorough { 10 } else { 8 };
     let per: Vec<_> = cfgs
         .par_iter()
         .map(|cfg| {
             let mut r = Report::new();
-            let proto = Mon { max_sends: 3 };
+            let proto = Mon::new(3);
             // differential oracle at every visited state: the continuation with and without the rejected buffer
             let visit = |hist: &[Event], rep: &mut Report| {
                 let base = explore::replay(cfg, &apps, &proto, hist);
@@ -337,7 +368,7 @@ pub fn run(ctx: &RunCtx) -> i32 {
         rep,
         Finish {
             level: "model_checking",
-            rule: format!("breadth-first exploration of the real client to depth {} for 8 transport x mechanism x fingerprint configurations (limit 3) over {{Send, Timer, AdvanceTo, Deliver(accepted reply kinds of the mechanism incl. 401 / 438 challenges), every rejected-buffer kind: undecodable (garbage, truncated), request class, reply for an unknown id, reply for a finished id, bad / missing / misplaced FINGERPRINT, auth-failing response on unreliable transport (corrupted, absent, other password), both-MACs response, wrong-algorithm response, 401 without realm / nonce, 438 without nonce, an error response without ERROR-CODE (5 integrity variants), a long-term success response with both MACs, complete 401 / 438 challenges (new realm / nonce / algorithms) whose own integrity attribute fails, indication failing authentication / without integrity}}. Direct oracle on every transition whose call returned Err: no events and a byte-identical canonical snapshot before/after, the only tolerated change being one added violated marker for a response on unreliable transport with credentials. Differential oracle at every visited state: a fixed continuation (all outstanding requests driven to their final outcome by the pending deadlines, one more exchange, RTO of the new request, final snapshot) is run with and without each rejected kind inserted and must produce identical observations (only TimedOut -> ProtectionViolated for the affected request may differ)", depth),
+            rule: format!("breadth-first exploration of the real client to depth {} for 8 transport x mechanism x fingerprint configurations (limit 3) over {{Send, Timer, AdvanceTo, Deliver(accepted reply kinds of the mechanism incl. 401 / 438 challenges), every rejected-buffer kind: undecodable (garbage, truncated), request class, reply for an unknown id, reply for a finished id, bad / missing / misplaced FINGERPRINT, auth-failing response on unreliable transport (corrupted, absent, other password), both-MACs response, wrong-algorithm response, 401 without realm / nonce, 438 without nonce, an error response without ERROR-CODE (5 integrity variants), a long-term success response with both MACs, complete 401 / 438 challenges (new realm / nonce / algorithms) whose own integrity attribute fails, indication failing authentication / without integrity}}. A buffer of a kind the statement lists as rejected (undecodable bytes, a request, a response for an unknown or finished id, a bad / missing fingerprint) that is accepted is a violation in itself. Direct oracle on every transition whose call returned Err: no events and a byte-identical canonical snapshot before/after, the only tolerated change being one added violated marker for a response on unreliable transport with credentials. Differential oracle at every visited state: a fixed continuation (all outstanding requests driven to their final outcome by the pending deadlines, one more exchange, RTO of the new request, final snapshot) is run with and without each rejected kind inserted and must produce identical observations (only TimedOut -> ProtectionViolated for the affected request may differ)", depth),
             assumptions: vec!["the feature-gated snapshot renders every field of StunClient except the stateless encoder / decoder".into()],
             required_symbols: vec!["bfs-configs", "rejected-and-unchanged", "marker-exception", "continuation-identical", "undecodable-garbage", "request-class", "reply-for-unknown-id", "reply-for-finished-id", "bad-fingerprint", "missing-fingerprint", "both-macs-response", "wrong-algorithm-response", "401-without-realm", "438-without-nonce", "401-failing-auth-unreliable", "438-failing-auth-unreliable", "error-response-without-error-code", "indication-failing-auth"],
             min_outcomes: 8,
